@@ -6,7 +6,7 @@ import subprocess
 import sys
 
 sys.path.insert(0, os.path.dirname(os.path.abspath(__file__)))
-from props import NOT_APPLICABLE  # noqa: E402
+from props import NOT_APPLICABLE, READY  # noqa: E402
 from engines import CLAIMS  # noqa: E402
 
 V = os.path.dirname(os.path.dirname(os.path.abspath(__file__)))
@@ -28,7 +28,7 @@ m = dict(
     not_applicable=[],
 )
 for pid in ids:
-    if pid in CLAIMS:
+    if pid in CLAIMS and pid in READY:
         c = CLAIMS[pid]
         m["checks"].append(dict(
             property_id=pid, quick_cmd="./check %s --tier quick" % pid, thorough_cmd="./check %s --tier thorough" % pid,
